@@ -39,6 +39,28 @@ def gen_scenarios(rnd: random.Random, count, max_r=5, flavours=('sync', 'sync', 
     return out
 
 
+def contended_scenarios(rnd: random.Random, count):
+    """Corner family for "waits no longer than its timeout": a full server, one result after the other emerges, and at
+    every wake-up several waiters compete for the one freed slot - a waiter with a short timeout is woken while the server
+    is full AGAIN, possibly several times, before its deadline.  Run with exact virtual time."""
+    out = []
+    for _ in range(count):
+        cap = rnd.choice([1, 1, 2])
+        d1 = rnd.choice([2, 3])
+        reqs = []
+        for r in range(1, cap + 1):       # these fill the server at time 0 and come out at time d1
+            reqs.append({'r': r, 'kind': 'wait', 'dur': d1, 'fail': False, 'timeout': 100000, 'delay': 0})
+        for k in range(rnd.randint(1, 2)):   # waiters with a deadline after d1: woken at d1
+            reqs.append({'r': len(reqs) + 1, 'kind': 'short', 'dur': rnd.choice([0, 1]), 'fail': False,
+                         'timeout': d1 + rnd.choice([1, 2, 3]), 'delay': rnd.choice([0, 1])})
+        for k in range(rnd.randint(1, 2)):   # fresh arrivals at the very moment the first results emerge: they race the
+            reqs.append({'r': len(reqs) + 1, 'kind': rnd.choice(['wait', 'bp']), 'dur': rnd.choice([3, 4, 6]),   # woken waiter
+                         'fail': False, 'timeout': 100000, 'delay': d1})
+        out.append({'cap': cap, 'workers': rnd.choice([1, 2]), 'flavour': rnd.choice(['sync', 'sync', 'async']),
+                    'reqs': reqs, 'stream': None})
+    return out
+
+
 def header(sc):
     return {'R': len(sc['reqs']), 'cap': sc['cap'], 'kinds': [q['kind'] for q in sc['reqs']],
             'async': sc['flavour'] == 'async'}
@@ -503,12 +525,14 @@ def run_job(job):
             st = detsched.RandomStrategy(seed, stay=0.5 + 0.4 * ((seed * 7919) % 10) / 10.0, fire=0.25)
         # every third execution runs with exact virtual time (timers fire only when nothing is runnable): there a
         # rejected / timed-out caller must be back by its deadline EXACTLY; the others use bounded-lag adversarial time
-        exact = (item['id'] % 3 == 0)
+        exact = item.get('exact', item['id'] % 3 == 0)
         guided = None
         if item.get('script') is not None:
             gates = {}
             sc = dict(sc, _gates=gates)
-            guided = detsched.GuidedStrategy(item['script'], _role_of, gates, seed=seed, patience=60)
+            # scripted time-outs expire one thread's timer WITHOUT moving the clock: firing a slot wait that is due at
+            # 990 virtual s must not bring the 1000 s deadlines of the requests that never time out in the model within reach
+            guided = detsched.GuidedStrategy(item['script'], _role_of, gates, seed=seed, patience=60, advance_clock=False)
             res = detsched.run(_make_scenario(sc, False), guided, max_steps=400000, stall_timeout=120, lag=1.0e6,
                                max_idle_vtime=1.0e7)
             sc = {k: v for k, v in sc.items() if k != '_gates'}
